@@ -13,9 +13,9 @@ import (
 	"github.com/cosmos/cosmos-sdk/types/tx/signing"
 	authsigning "github.com/cosmos/cosmos-sdk/x/auth/signing"
 	authtx "github.com/cosmos/cosmos-sdk/x/auth/tx"
+	"github.com/cosmos/gogoproto/proto"
 	"github.com/ethereum/go-ethereum/common"
 	ethtypes "github.com/ethereum/go-ethereum/core/types"
-	"github.com/cosmos/gogoproto/proto"
 )
 
 var evmChainIDBig = big.NewInt(EvmChainID)
@@ -34,8 +34,8 @@ type EthTx struct {
 	Access   ethtypes.AccessList
 	ChainID  *big.Int // nil = the chain's id
 	// adversarial knobs
-	Unprotected bool         // homestead signature (legacy only)
-	SignWith    *Wallet      // sign with another key than From
+	Unprotected bool            // homestead signature (legacy only)
+	SignWith    *Wallet         // sign with another key than From
 	DeclareFrom *common.Address // declare another From than the signer
 }
 
@@ -190,19 +190,19 @@ func BuildEthTx(w *Wallet, e *EthTx) ([]byte, *ethtypes.Transaction) {
 
 // CosmosTx describes a Cosmos-lane transaction.
 type CosmosTx struct {
-	Msgs      []sdk.Msg
-	Gas       uint64
-	Fee       sdk.Coins
-	AccNum    uint64
-	Seq       uint64
-	Memo      string
-	Timeout   uint64
-	DynTip    *sdkmath.Int // adds ExtensionOptionDynamicFeeTx
-	ChainID   string       // "" = the chain's
-	SignSeq   *uint64      // sign with another sequence than declared
-	NoSig     bool
-	ExtOpt    proto.Message
-	FeeGrant  sdk.AccAddress
+	Msgs     []sdk.Msg
+	Gas      uint64
+	Fee      sdk.Coins
+	AccNum   uint64
+	Seq      uint64
+	Memo     string
+	Timeout  uint64
+	DynTip   *sdkmath.Int // adds ExtensionOptionDynamicFeeTx
+	ChainID  string       // "" = the chain's
+	SignSeq  *uint64      // sign with another sequence than declared
+	NoSig    bool
+	ExtOpt   proto.Message
+	FeeGrant sdk.AccAddress
 }
 
 // BuildCosmosTx signs (SIGN_MODE_DIRECT) and encodes.
